@@ -701,11 +701,27 @@ def _list_forms_forward_settings(col, rule="C10.R4"):
             n += 1
             missing = []
             passed = {x.id for a in list(call.args) + [k.value for k in call.keywords] for x in ast.walk(a) if isinstance(x, ast.Name)}
+            # ... also through locals the arguments were collected into first (`settings = dict(limits=limits, ...)`)
+            grew = True
+            while grew:
+                grew = False
+                for x in ast.walk(fn):
+                    tg = x.targets if isinstance(x, ast.Assign) else [x.target] if isinstance(x, (ast.AugAssign, ast.AnnAssign)) and x.value is not None else []
+                    hit = any(isinstance(t_, ast.Name) and t_.id in passed for t in tg for t_ in ast.walk(t))
+                    if isinstance(x, ast.Call) and isinstance(x.func, ast.Attribute) and isinstance(x.func.value, ast.Name) and x.func.value.id in passed \
+                            and x.func.attr in ("update", "setdefault", "append", "extend", "__setitem__"):
+                        hit, val = True, x
+                    else:
+                        val = getattr(x, "value", None)
+                    if hit and val is not None:
+                        more = {y.id for y in ast.walk(val) if isinstance(y, ast.Name)} - passed
+                        if more:
+                            passed |= more
+                            grew = True
             for sname in settings:
                 if sname not in passed and sname not in rebound:
                     missing.append(sname)
-            if fn.args.kwarg is not None and not any(k.arg is None and isinstance(k.value, ast.Name) and k.value.id == fn.args.kwarg.arg for k in call.keywords) \
-                    and fn.args.kwarg.arg not in rebound and not any(isinstance(x, ast.Name) and x.id == fn.args.kwarg.arg for x in ast.walk(call)):
+            if fn.args.kwarg is not None and fn.args.kwarg.arg not in passed and fn.args.kwarg.arg not in rebound:
                 missing.append("**" + fn.args.kwarg.arg)
             col.add(rule, f"{lst}.__init__#every-setting-reaches-{elem}", not missing, c.module.loc(call),
                     f"each setting accepted by {lst} is handed to the {elem} objects it builds", f"not forwarded: {missing}" if missing else f"forwards {settings or ['**' + (fn.args.kwarg.arg if fn.args.kwarg else '')]}")
